@@ -145,6 +145,7 @@ where
 	let mut limited_body = Limited::new(body, max_body_size as usize);
 
 	let mut is_single = None;
+	let mut skipped_whitespace = 0;
 
 	while let Some(frame_or_err) = limited_body.frame().await {
 		// The body turned out to be bigger than allowed (no or a wrong `Content-Length`).
@@ -155,10 +156,13 @@ where
 			continue;
 		};
 
-		// If it's the first chunk, trim the whitespaces to determine whether it's valid JSON-RPC call.
-		if received_data.is_empty() {
-			let first_non_whitespace =
-				data.chunk().iter().enumerate().take(128).find(|(_, byte)| !byte.is_ascii_whitespace());
+		// Until the first non-whitespace byte has been seen, trim the whitespaces to determine whether it's a
+		// valid JSON-RPC call. The look-ahead window is counted across chunks, so that the outcome doesn't depend
+		// on how the body is split.
+		if is_single.is_none() {
+			let chunk = data.chunk();
+			let window = 128_usize.saturating_sub(skipped_whitespace);
+			let first_non_whitespace = chunk.iter().enumerate().take(window).find(|(_, byte)| !byte.is_ascii_whitespace());
 
 			let skip = match first_non_whitespace {
 				Some((idx, b'{')) => {
@@ -169,11 +173,16 @@ where
 					is_single = Some(false);
 					idx
 				}
+				// Only whitespace so far, keep looking in the next chunk.
+				None if chunk.len() < window => {
+					skipped_whitespace += chunk.len();
+					continue;
+				}
 				_ => return Err(HttpError::Malformed),
 			};
 
 			// ignore whitespace as these doesn't matter just makes the JSON decoding slower.
-			received_data.extend_from_slice(&data.chunk()[skip..]);
+			received_data.extend_from_slice(&chunk[skip..]);
 		} else {
 			received_data.extend_from_slice(data.chunk());
 		}
